@@ -408,13 +408,9 @@ func (r *router) find(path string, paramsPointer *param.Params, unescape bool) (
 				i = len(search)
 			}
 			(*paramsPointer) = (*paramsPointer)[:(paramIndex + 1)]
-			val := search[:i]
-			if unescape {
-				if v, err := url.QueryUnescape(search[:i]); err == nil {
-					val = v
-				}
-			}
-			(*paramsPointer)[paramIndex].Value = val
+			// the raw value: backtracking restores the search position from its length,
+			// it is unescaped once the route is decided
+			(*paramsPointer)[paramIndex].Value = search[:i]
 			paramIndex++
 			search = search[i:]
 			searchIndex = searchIndex + i
@@ -432,14 +428,7 @@ func (r *router) find(path string, paramsPointer *param.Params, unescape bool) (
 			cn = child
 			(*paramsPointer) = (*paramsPointer)[:(paramIndex + 1)]
 			index := len(cn.pnames) - 1
-			val := search
-			if unescape {
-				if v, err := url.QueryUnescape(search); err == nil {
-					val = v
-				}
-			}
-
-			(*paramsPointer)[index].Value = bytesconv.B2s(append(buf, val...))
+			(*paramsPointer)[index].Value = bytesconv.B2s(append(buf, search...))
 			// update indexes/search in case we need to backtrack when no handler match is found
 			paramIndex++
 			searchIndex += len(search)
@@ -466,6 +455,11 @@ func (r *router) find(path string, paramsPointer *param.Params, unescape bool) (
 		res.fullPath = cn.ppath
 		for i, name := range cn.pnames {
 			(*paramsPointer)[i].Key = name
+			if unescape {
+				if v, err := url.QueryUnescape((*paramsPointer)[i].Value); err == nil {
+					(*paramsPointer)[i].Value = v
+				}
+			}
 		}
 	}
 
